@@ -29,10 +29,12 @@ class Uneval(Exception):
 
 
 def _nk(t):
-    """term with user names dropped from arg leaves (environment key)"""
+    """term with user names dropped from arg leaves and types from field nodes (environment key)"""
     def f(n):
         if tag(n) == 'arg':
             return ('arg', n[1], None)
+        if tag(n) == 'field':
+            return ('field', _strip(n[1]), n[2], None)
         return n
     return map_term(t, f)
 
@@ -56,9 +58,10 @@ class Frame:
     """evaluation context: body f whose parameters are the argument terms `args` of the call in `parent` (None: entry point, whose
     atoms are valued by env)"""
 
-    def __init__(self, f, args=None, parent=None, env=None, depth=0):
+    def __init__(self, f, args=None, parent=None, env=None, depth=0, ncx=None):
         self.f, self.args, self.parent, self.depth = f, args, parent, depth
         self.env = env if env is not None else (parent.env if parent is not None else {})
+        self.ncx = ncx if ncx is not None else (parent.ncx if parent is not None else None)      # gives access to the crate's bodies
         self._busy = set()
 
 
@@ -87,6 +90,107 @@ def _rebase(t, root, new):
     return t
 
 
+def _fold(t):
+    """projections of literals folded: field i of an aggregate (through a variant downcast) is its i-th component"""
+    t = _strip(t)
+    k = tag(t)
+    if k == 'field':
+        inner = _fold(t[1])
+        lit = _fold(inner[1]) if tag(inner) == 'downcast' else inner
+        if tag(lit) == 'agg' and isinstance(t[2], int) and t[2] < len(lit[3]):
+            return _fold(lit[3][t[2]])
+        return ('field', inner, t[2], t[3])
+    if k == 'downcast':
+        return ('downcast', _fold(t[1]), t[2])
+    if k in ('len', 'discr'):
+        return (k, _fold(t[1]))
+    return t
+
+
+def _path_base(t):
+    """innermost term an access path (len / field / downcast / discr chain) is applied to"""
+    t = _strip(t)
+    while tag(t) in ('len', 'field', 'downcast', 'discr'):
+        t = _strip(t[1])
+    return t
+
+
+def _agree(vals):
+    if not vals:
+        raise Uneval('no live value')
+    if any(type(v) != type(vals[0]) or v != vals[0] for v in vals[1:]):
+        raise Uneval('several live values')
+    return vals[0]
+
+
+def _matrix_new(t, base, ctx):
+    """Matrix::new(data, nrows, ncols) with positive dimensions is the nrows x ncols matrix over data (it builds 1 x len and reshapes in
+    place, so its return site alone does not say so; the reshape and the invariant are C15's obligations).  -1 (inferred) is not read."""
+    t = _strip(t)
+    if tag(t) == 'field' and _strip(t[1]) == base and t[2] in (1, 2):
+        v = tev(base[2][t[2]], ctx)
+        if isinstance(v, int) and not isinstance(v, bool) and v > 0:
+            return v
+        raise Uneval('inferred dimension')
+    if tag(t) == 'len' and tag(_strip(t[1])) == 'field' and _strip(_strip(t[1])[1]) == base and _strip(t[1])[2] == 0:
+        return tev(('len', base[2][0]), ctx)
+    raise Uneval('Matrix::new component')
+
+
+SUMMARIES = {'linalg::array::matrix::Matrix::new': _matrix_new}
+
+
+def _through_call(t, base, ctx):
+    if ctx.depth >= 6:
+        raise Uneval('call depth')
+    ncx = ctx.ncx
+    h = ncx.prog.func(base[1])
+    if h is None:
+        raise Uneval('callee')
+    summ = SUMMARIES.get(base[1])
+    if summ is not None:
+        return summ(t, base, ctx)
+    if not ncx.prog.straight_line(h):
+        # the callee writes through a reference or a projection: the value at its return site may have been modified in place
+        raise Uneval('callee mutates in place')
+    key = ('call', base)
+    if key in ctx._busy:
+        raise Uneval('recursive call')
+    ctx._busy.add(key)
+    try:
+        sub = Frame(h, tuple(base[2]), ctx, depth=ctx.depth + 1)
+        live = ncx.reachable(h, sub)
+        vals = []
+        for d in h._defs.get(0, []):
+            if d[1] not in live:
+                continue
+            rt = h.rvalue_term(d[3], d[1]) if d[0] == 'assign' else h.call_term(d[2], d[1])
+            vals.append(tev(_rebase(t, base, rt), sub))
+        return _agree(vals)
+    finally:
+        ctx._busy.discard(key)
+
+
+def _through_local(t, base, ctx):
+    f = ctx.f
+    key = ('phi', t)
+    if key in ctx._busy:
+        raise Uneval('loop-carried local')
+    sts = [s_ for s_ in f.stores() if s_.target == base]
+    if not sts or any(base in subterms(s_.value) for s_ in sts):
+        raise Uneval('local not a choice of values')
+    ctx._busy.add(key)
+    try:
+        vals = []
+        for s_ in sts:
+            if any(guard_value(canon_guard(c, v), ctx) is False for c, v in f.guards().get(s_.bb, [])):
+                continue
+            vals.append(tev(_rebase(t, base, s_.value), ctx))
+        return _agree(vals)
+    finally:
+        ctx._busy.discard(key)
+
+
 def _variant_index(path):
     """variant number of an adt literal's path (`Option#1` = Some; no suffix = variant 0)"""
     if isinstance(path, str):
@@ -106,6 +210,9 @@ def tev(t, ctx):
     env = ctx.env
     t = _strip(t)
     k = tag(t)
+    if k in ('field', 'downcast', 'len', 'discr'):
+        t = _fold(t)
+        k = tag(t)
     if ctx.parent is None:
         key = _nk(t)
         if key in env:
@@ -115,6 +222,14 @@ def tev(t, ctx):
         root = _path_root(t)
         if root is not None and ctx.parent is not None and ctx.args is not None and 1 <= root[1] <= len(ctx.args):
             return tev(_rebase(t, root, ctx.args[root[1] - 1]), ctx.parent)
+    # access paths rooted at the result of an in-crate call or at a local assigned in several branches: the path is applied to the
+    # value(s) the call can return / the local can hold under this frame
+    if k in ('len', 'field', 'downcast', 'discr', 'call', 'local'):
+        base = _path_base(t)
+        if tag(base) == 'call' and ctx.ncx is not None and base[1] in ctx.ncx.prog.pdb.bodies and base[1] not in env.get('__fn__', ()):
+            return _through_call(t, base, ctx)
+        if tag(base) == 'local' and base != t and ctx.f is not None:
+            return _through_local(t, base, ctx)
     if k == 'discr':
         inner = _strip(t[1])
         if tag(inner) == 'agg' and inner[1] == 'adt':
@@ -444,7 +559,7 @@ class NC:
                 if ctx.depth < self.max_depth:
                     h = self.prog.func(c.path)
                     if h is not None and h.cfg.returns is not None:
-                        sub = Frame(h, tuple(c.args), ctx, depth=ctx.depth + 1)
+                        sub = Frame(h, tuple(c.args), ctx, depth=ctx.depth + 1, ncx=self)
                         if self.cannot_return(h, sub, why):
                             memo[b] = True
                             return True
@@ -520,7 +635,7 @@ class NC:
                 if ctx.depth >= self.max_depth:
                     return False
                 h = self.prog.func(c.path)
-                if h is None or not self.definitely_returns(h, Frame(h, tuple(c.args), ctx, depth=ctx.depth + 1)):
+                if h is None or not self.definitely_returns(h, Frame(h, tuple(c.args), ctx, depth=ctx.depth + 1, ncx=self)):
                     return False
             conds = {}
             for d, g in edges.get(b, []):
@@ -716,14 +831,14 @@ def find_witness(prog, ncx, f, domain=None, extra=None, limit=20000):
         if domain is not None and not domain(env, at):
             continue
         if inv:
-            root = Frame(f, env=env)
+            root = Frame(f, env=env, ncx=ncx)
             vals = [guard_value(g, root) for g in inv]
             if any(v is False for v in vals):
                 continue
             if any(v is None for v in vals) and field_atoms:
                 continue
         why = []
-        if ncx.cannot_return(f, Frame(f, env=env), why):
+        if ncx.cannot_return(f, Frame(f, env=env, ncx=ncx), why):
             return env, why, at
     return None, {'atoms': len(names), 'tried': tried}, at
 
@@ -791,7 +906,7 @@ def check_rejects(prog, rep, rule, key_fn, witnesses, what, ncx=None):
         env = {('arg', names[n], None): v for n, v in w.items() if n in names}
         if len(env) != len(w):
             continue
-        ctx = Frame(f, env=env)
+        ctx = Frame(f, env=env, ncx=ncx)
         if ncx.definitely_returns(f, ctx):
             rep.viol(rule, key, '%s(%s) certainly returns a value: every test on the way holds for this argument, %s' % (
                 short(key_fn), ', '.join('%s = %r' % kv for kv in sorted(w.items())), what), site_of(f.body))
@@ -799,7 +914,7 @@ def check_rejects(prog, rep, rule, key_fn, witnesses, what, ncx=None):
                 rep.touch(k)
             return
         shown += 1
-        if ncx.cannot_return(f, Frame(f, env=env), []):
+        if ncx.cannot_return(f, Frame(f, env=env, ncx=ncx), []):
             refuted += 1
     for k in ncx.visited:
         rep.touch(k)
@@ -865,7 +980,7 @@ def check_data_filters(prog, rep, rule, entry_keys, finite=(0.0, -2.5, 1.0, 5e-3
             unread = False
             for v in finite:
                 env = {a: v for a in at}
-                ctx = Frame(h, env=env)
+                ctx = Frame(h, env=env, ncx=ncx)
                 live = ncx.reachable(h, ctx)
                 vals = []
                 for d in h._defs.get(0, []):
